@@ -17,6 +17,11 @@ CLAIMED = {
          "section, exactly that capture committed in the table's edit log and later promoted to persistSeq; replay validated strictly, rows before the deferred sequence commit; recovered families seed both "
          "sequence maps from the manifest; replay resumes at ack+1; consumer-group acks reachable only via the callback and the ack+1-guarded ignore; every call chain to a data flush closed by ownership and "
          "ordered meta->wait->index->wait->data; and the freeze must precede the metadata flush covering it - today's tree violates that on one chain, recorded as known finding F8."),
+ 'C08': ("static analysis: must-fact guards on both replication sides, return classification, failure-state path rules (every error edge stores not-ready), handshake alignment and within-log guards over go/ssa",
+         "Decides for every path of the follower handler, the leader's send/ack code and the handshake: append only at the follower's own next index; non-appending returns can never equal the request index; the handler echoes "
+         "the request index and forwards result and error; the leader acks only on echo equality with an empty error, after a successful receive; every stream/RPC/rejection path stores the failure state before returning; ready is stored "
+         "only when leader-next == follower-next (compared, or both reset to ack+1 by a successful reset RPC); a reset of the replica index stays within the leader's own log or follows a re-base of its append index (the off-by-one found here "
+         "was a genuine defect, fixed in 8acf7c0); consume->get->send use one sequence. Bytes, gRPC and cross-stream concurrency are not decided."),
  'C09': ("static analysis: get-or-create discipline (re-check under the inserting lock, generator only on miss edges, mutate the container's object), generator ownership, flush-order and prepare/clear guards, counter-file layout agreement",
          "Decides the structure that makes ID assignment atomic and recoverable for all interleavings and crash points: creators re-check memory (and the persisted store after an intervening flush) under the write "
          "lock that guards the insert, generate only on miss edges inside that hold, and mutate the schema object resolved from the container; generators are referenced only by creators and each is one atomic "
